@@ -191,7 +191,7 @@ func genC06(t *rapid.T) any {
 		for r := 0; r < n; r++ {
 			row := map[string]any{"id": rapid.SampledFrom([]float64{1, 2}).Draw(t, fmt.Sprintf("h.r%d.id", r))}
 			for _, k := range rapid.SampledFrom([][]string{{"x"}, {"y"}, {"z"}, {"x", "y"}, {"y", "z"}, {}}).Draw(t, fmt.Sprintf("h.r%d.keys", r)) {
-				row[k] = rapid.SampledFrom([]any{1.0, 2.0, "1", nil}).Draw(t, fmt.Sprintf("h.r%d.%s", r, k))
+				row[k] = rapid.SampledFrom([]any{1.0, 2.0, "1", nil, []any{"a b"}, []any{"a", "b"}, []any{"1"}, []any{1.0}, []any{nil}, []any{"<nil>"}, []any{}, map[string]any{"a": "1"}, map[string]any{"a": 1.0}}).Draw(t, fmt.Sprintf("h.r%d.%s", r, k))
 			}
 			h = append(h, row)
 		}
